@@ -70,7 +70,7 @@ theorem placeBoard_typeBits_in_all (b : Board) (t : Bool) (p g : Piece) :
     (placeBoard b t p).typeBits g &&& (placeBoard b t p).all = (placeBoard b t p).typeBits g :=
   new_typeBits_in_all _ _ _ _ _ _ _ g
 
-theorem bitsByPieceType_eq (b : Board) (p : Piece) : b.bitsByPieceType p = b.typeBits p := by
+theorem bitsByPieceType_eq_hp (b : Board) (p : Piece) : b.bitsByPieceType p = b.typeBits p := by
   cases p <;> rfl
 
 /-- pointwise form of `bits_for_piece` -/
@@ -78,7 +78,7 @@ theorem bitsForPiece_planeBit (b : Board) (p : Piece) (o : Bool) (i : Nat) (hi :
     bit (b.bitsForPiece p o) i =
       (bit (b.typeBits p) i && (if o then bit b.p1 i else (!bit b.p1 i && bit b.all i))) := by
   unfold Board.bitsForPiece Board.playerPieceMask
-  rw [bitsByPieceType_eq, bit_and]
+  rw [bitsByPieceType_eq_hp, bit_and]
   cases o
   · simp [bit_and, bit_not, hi]
   · simp
